@@ -200,13 +200,13 @@ package fs
 //@   ensures [run-bounded] implies(!cancelled(), len(content(result1)) < config.Server.MaxLineLength && !contains(content(result1), "\n"))
 
 //@ func (*readFile).truncated
-//@   assigns nothing
+//@   assigns *fd, fs
 //@   ensures [error-when-truncated] implies(result0, !isnil(result1))
 
 //@ func (*readFile).handleReadError
 //@   requires [message] message != nil && !isnil(err)
 //@   chaninv rawLines [raw-nonnil] elem != nil
-//@   assigns *rawLines, g_rawStr
+//@   assigns *rawLines, g_rawStr, *fd, fs
 //@   on-send rawLines effect g_rawStr == g_rawStr + content(elem)
 //@   ensures [status] result0 == abortReading || result0 == nothing
 //@   ensures [flush-at-eof] implies(!cancelled() && result0 == abortReading && isnil(result1), g_rawStr == old(g_rawStr) + content(message))
@@ -247,6 +247,12 @@ package fs
 //@   requires [fd] fd != nil
 //@   assigns nothing
 //@   ensures [decoder-by-suffix] implies(isnil(result1), result0 != nil && result0.src == ite(hasSuffix(f.filePath, ".gz") || hasSuffix(f.filePath, ".gzip"), "gzip", ite(hasSuffix(f.filePath, ".zst"), "zstd", "raw")))
+//@ func (*readFile).makeReader
+//@   assigns fs
+//@   ensures [reader] implies(isnil(result2), result0 != nil)
+//@ func (*readFile).makePipeReader
+//@   assigns nothing
+//@   ensures [reader] result0 != nil && isnil(result2)
 //@ func (*readFile).makeFileReader
 //@   assigns fs
 //@   ensures [position] implies(isnil(result2), result1 != nil && result0 != nil && result1.path == f.filePath && result1.pos == ite(f.seekEOF, "end", "start"))
